@@ -378,10 +378,16 @@ func (e *Engine) call(fr *Frame, st *State, reach Term, site ssa.Instruction, c 
 			e.oblige("lock.release", "lock.defer@"+label, "a lock taken by this function is held across the call to "+id+" without a deferred Unlock (a panic in the callee leaks the lock)", And(reach, when), cond, nil)
 		}
 	}
+	calleePure := false
+	if fc := e.P.lookupContract(id); fc != nil && fc.Pure {
+		calleePure = true
+	}
 	if c.IsInvoke() {
 		e.ownedCallCheck(st, reach, args[0], c.Method.Name())
+		e.globalCallCheck(reach, args[0], c.Method.Name(), calleePure)
 	} else if callee != nil && callee.Signature.Recv() != nil && len(args) > 0 {
 		e.ownedCallCheck(st, reach, args[0], callee.Name())
+		e.globalCallCheck(reach, args[0], callee.Name(), calleePure)
 	}
 	// lock primitives
 	if strings.HasPrefix(id, "sync.") {
@@ -443,7 +449,7 @@ func (e *Engine) call(fr *Frame, st *State, reach Term, site ssa.Instruction, c 
 	e.exposing = false
 	st.havocPrefix([]string{""}, true)
 	res := e.havocVal(reach, "res."+label, resType)
-	e.labels[label] = &callLabel{Callee: id, Reach: reach, Args: args, Results: splitResults(res), After: st.clone()}
+	e.setLabel(label, &callLabel{Callee: id, Reach: reach, Args: args, Results: splitResults(res), After: st.clone()})
 	return res, reach
 }
 
@@ -527,6 +533,15 @@ func splitResults(v Val) []Val {
 }
 
 // callLabel names a call site: <callee short name>#<k>, k counted in source order per callee name.
+// setLabel records the latest execution of a call site. A deferred call runs once per return of the function: its
+// site counts as called on every path on which one of those executions happened.
+func (e *Engine) setLabel(label string, cl *callLabel) {
+	if prev := e.labels[label]; prev != nil && e.unwinding > 0 {
+		cl.Reach = Or(prev.Reach, cl.Reach)
+	}
+	e.labels[label] = cl
+}
+
 func (e *Engine) callLabel(id string, callee *ssa.Function, c *ssa.CallCommon) string {
 	name := labelName(id)
 	if len(e.inlining) > 0 {
@@ -880,7 +895,7 @@ func (e *Engine) applyContract(fr *Frame, st *State, reach Term, fc *FuncContrac
 		}
 		e.assume(reach, c)
 	}
-	e.labels[label] = &callLabel{Callee: id, Reach: reach, Args: args, Results: results, After: st.clone()}
+	e.setLabel(label, &callLabel{Callee: id, Reach: reach, Args: args, Results: results, After: st.clone()})
 	return res
 }
 
@@ -963,7 +978,7 @@ func (e *Engine) inline(st *State, reach Term, callee *ssa.Function, clo *Closur
 	}
 	nreach := Or(conds...)
 	nreach = e.define("ret", nreach)
-	e.labels[label] = &callLabel{Callee: "inlined:" + e.P.FuncIDOf(callee), Reach: reach, Args: args, Results: splitResults(res)}
+	e.setLabel(label, &callLabel{Callee: "inlined:" + e.P.FuncIDOf(callee), Reach: reach, Args: args, Results: splitResults(res)})
 	return res, nreach
 }
 
@@ -1383,6 +1398,6 @@ func (e *Engine) lockPrimitive(st *State, reach Term, id string, args []Val, lab
 		e.oblige("lock.release", "lock.release@"+label, "RUnlock() of a mutex not read-held", reach, Eq(cur, IntLit(1)), nil)
 		st.setComp(lockComp, e.define("held", Store(held, m, IntLit(0))))
 	}
-	e.labels[label] = &callLabel{Reach: reach, Args: args}
+	e.setLabel(label, &callLabel{Reach: reach, Args: args})
 	return Val{T: types.NewTuple()}, true
 }
